@@ -57,9 +57,10 @@ Inductive res := ROk (c : actx) | RExn (e : exn) | RNone.     (* RNone: fell off
 
 (* ------------------------------------------------------------------ proxy_proof_gate *)
 (* header tests of the closure `gate`, in source order, each raising ProofError(reason) *)
-Inductive hdrtest := TFalsy (* `if not raw` *) | TComma (* `"," in raw` *).
+Inductive hdrtest := TNone (* `if raw is None` *) | TFalsy (* `if not raw` *) | TComma (* `"," in raw` *).
 Definition hdrtest_holds (t : hdrtest) (h : hdr) : bool :=
   match t, h with
+  | TNone, HAbsent => true
   | TFalsy, (HAbsent | HEmpty) => true
   | TComma, HMulti => true
   | _, _ => false
@@ -86,7 +87,8 @@ Definition proof_gate_with (pre : list (hdrtest * preason)) (required : mode -> 
   end.
 
 (* the data as it is in the source today *)
-Definition gate_pre : list (hdrtest * preason) := [(TFalsy, RNoProof); (TComma, RMalformed)].
+(* absent -> no_proof; present but empty -> malformed (proxy-proof-spec section 6, row 2); repeated -> malformed *)
+Definition gate_pre : list (hdrtest * preason) := [(TNone, RNoProof); (TFalsy, RMalformed); (TComma, RMalformed)].
 Definition required (m : mode) : bool := mode_eqb m MRequire.
 Definition fail_claims (r : preason) : gclaims :=
   {| gc_verified := VFalse; gc_proxy := PxEmpty; gc_kid := false; gc_reason := Some r |}.
